@@ -146,7 +146,7 @@ def _case(draw):
     descs = [draw(_desc(k)) for k in kinds]
     ops = []
     for _ in range(draw(st.integers(3, 8))):
-        ops.append([draw(st.sampled_from(["build", "build_edit", "build_keep", "render_kept", "render_cli", "render_cli", "render_api", "render_api", "render_grown", "render_plus_after_export", "faulty_krome"])), draw(st.integers(0, nd - 1))])
+        ops.append([draw(st.sampled_from(["build", "build_edit", "build_keep", "render_kept", "render_cli", "render_cli", "render_api", "render_api", "render_grown", "render_plus_after_export", "render_bare", "faulty_krome"])), draw(st.integers(0, nd - 1))])
     if not any(o[0].startswith("render") for o in ops):
         ops.append(["render_cli", 0])
     return {"descs": descs, "ops": ops}
@@ -257,6 +257,18 @@ def _do(op, desc, workdir, k, slot=0):
             # the file it was read from lives in the old op directory; rendering needs no file
             TemplateLoader(s, m, dv).render("vtproj", net, path=root)
             return _digest(root)
+        if op == "render_bare":
+            # a plain script: Network(...) with the description's own arguments and nothing else - no manual re-installation
+            # of the class-level symbol tables between two networks. Only for descriptions that use the default lists and no
+            # tables of their own (those that do must install them, which is what the other API routes model).
+            if not (desc["elements"] or desc["pseudo"] or desc["replacement"] or desc["binding"] or desc["yields"]) and desc["surface"] == "#":
+                kw = dict(filelist=[fname], fileformats=[desc["fmt"]], allowed_species=list(desc["allowed"]), required_species=list(desc["required"]),
+                          grain_model=desc["grain_model"], rate_modifier={int(k_): v for k_, v in desc["rate_mod"].items()}, ode_modifier=dict(desc["ode_mod"]))
+                net = Network(**kw)
+                s, m, dv = desc["backend"]
+                TemplateLoader(s, m, dv).render("vtproj", net, path=root)
+                return _digest(root)
+            op = "render_api"
         # API routes: what `naunet render` documents, through public calls
         Species._replacement = dict(desc["replacement"])
         Species.set_known_elements(list(desc["elements"]))
@@ -394,6 +406,11 @@ def check_case(case, tier):
                                          f"op#{k}: network of {descs[i]['kind']} built at op#{kb}, then {between} installed other element lists / replacement / binding tables, then rendered: digest {dg} vs {ref} alone"))
                         seen_ops.append((op, i))
                         continue
+                if op == "render_bare" and prev_other:
+                    failures.append(("determinism/bare-network-inherits-foreign-symbol-tables",
+                                     f"op#{k}: Network(...) of {descs[i]['kind']} (default symbol lists, no tables of its own) built after {sorted({descs[j]['kind'] for _, j in prev_other})} had installed their element lists / replacement table / binding energies: {'raises ' + str(dg)[7:] if str(dg).startswith('raised') else 'digest ' + str(dg)} vs {ref} when built first in a fresh process"))
+                    seen_ops.append((op, i))
+                    continue
                 failures.append((f"determinism/{op}/{why}/{descs[i]['kind']}<-{'+'.join(kinds) or 'self'}:{first_prev if first_prev.startswith('render') else 'build'}",
                                  f"op#{k} {op}({descs[i]['kind']}) gives digest {dg} but the same description rendered alone gives {ref}; earlier ops: {seen_ops}"))
         seen_ops.append((op, i))
